@@ -224,6 +224,16 @@ pub enum ReqKind {
     SrdLow,
     SrdHigh,
     FdlStatus,
+    /// Send Data Acknowledged: the peer answers with a short confirmation.
+    SdaLow,
+    SdaHigh,
+    /// Request ident / LSAP status / multicast SRD: further services with a reply.
+    Ident,
+    LsapStatus,
+    MulticastSrd,
+    /// Services without a reply besides SDN.
+    TimeEvent,
+    ClockValue,
 }
 
 #[derive(Serialize, Deserialize, Clone, Debug)]
